@@ -379,6 +379,8 @@ def build(case):
         for par in ps.all_pars():
             if par.name not in fwpars and mode != "mild":
                 continue  # hostile factors on initial sizes only produce refused initialisations
+            if rng.random() < 0.15:  # the all-population (meta) calibration factor
+                par.meta_y_factor = float(rng.uniform(0.7, 1.5)) if (mode == "mild" or par.name not in fwpars) else float(10 ** rng.uniform(-1, 1))
             for pop in par.pops:
                 if rng.random() < case["p_perturb"]:
                     if mode == "mild":
